@@ -1000,6 +1000,53 @@ def execute(trace, solo=None, alarm=None):
             "states": sorted(sim.states), "stats": stats}
 
 
+HISTORY_OPS = ("rec_open", "rec_next", "hold", "held_add", "held_reprs")
+
+
+def singleton_picks(trace, inter, limit=None):
+    """Step numbers of client operations to re-execute alone in a fresh
+    process (all of them up to a limit; operations on handles the client
+    opened earlier legitimately depend on its history and are left out)."""
+    import random
+    limit = limit or (160 if trace.get("kind") == "directed" else 32)
+    steps = [sn for cid, tr in inter["transcripts"].items() for sn, _ in tr
+             if trace["steps"][sn]["op"][0] not in HISTORY_OPS]
+    steps.sort()
+    if len(steps) > limit:
+        rng = random.Random("%s:%s" % (trace.get("index"), len(steps)))
+        steps = sorted(rng.sample(steps, limit))
+    return steps
+
+
+def run_singletons(trace, picks, alarm=None):
+    """Inside a forked 'nursery' that has only imported the library, set up
+    the world and built parsers: fork one child per picked operation; the
+    child selects the client's spelling once and performs that operation."""
+    kernel.import_library()
+    if alarm:
+        kernel.CALL_ALARM_S = alarm
+    world.fixed_utc_world()
+    world.set_env(world.ENV_CAL, None)
+    world.set_env(world.ENV_REF, None)
+    shared = Shared()
+
+    def one(sn):
+        from metomi.isodatetime import data
+        step = trace["steps"][sn]
+        sim = Sim(trace, solo=step["c"])
+        sim.shared = shared
+        client = sim.clients[step["c"]]
+        with kernel.guarded():
+            data.Calendar.default().set_mode(client.sp)
+        sim.model_mode = client.sp
+        return do_op(sim, client, step["op"])
+
+    out = []
+    for sn in picks:
+        out.append([sn, kernel.in_fresh_fork(one, (sn,), timeout=300)])
+    return out
+
+
 def has_hang(transcript):
     return any(res == "HANG" for _, res in transcript)
 
@@ -1033,6 +1080,34 @@ def check_trace_full(trace, alarm=None):
                     "client": cid, "spelling": trace["clients"][cid],
                     "op": op, "got": g, "want_fresh_process": w})
                 break
+    # oracle 1b -- the property's own words, operation by operation: the
+    # result equals what a fresh process that only ever used the current mode
+    # computes for THIS operation alone (the solo replay above repeats the
+    # client's whole history, which would mask a dependence on history
+    # within one mode)
+    picks = singleton_picks(trace, inter)
+    if picks:
+        singles = kernel.in_fresh_fork(
+            run_singletons, (trace, picks, alarm), timeout=600)
+        by_step = {}
+        for cid in used:
+            for sn, res in inter["transcripts"][cid]:
+                by_step[sn] = (cid, res)
+        for sn, want in singles:
+            cid, got = by_step[sn]
+            if got != want:
+                if "HANG" in (got, want):
+                    counters["skipped.single_hang"] = counters.get(
+                        "skipped.single_hang", 0) + 1
+                    continue
+                op = trace["steps"][sn]["op"]
+                violations.append({
+                    "class": "isolation_single", "opkind": op[0], "step": sn,
+                    "client": cid, "spelling": trace["clients"][cid],
+                    "op": op, "got": got,
+                    "want_fresh_process_this_op_alone": want})
+                break
+        counters["single_op_fresh_process_checks"] = len(singles)
     # probes measured over transcripts: same op issued under two calendars
     seen = {}
     for cid in used:
